@@ -239,6 +239,66 @@ def collect(repo):
     return sites, sigs, trees
 
 
+# ---- pruning expressions: (file, function, assigned variable, must the right-hand side BE the mask expression?)
+PRUNE_SITES = [
+    ("_coo/core.py", "COO._prune", "mask", True),
+    ("_coo/core.py", "COO.from_numpy", "coords", False),
+    ("_compressed/compressed.py", "GCXS._reduce_return", "mask", True),
+    ("_compressed/compressed.py", "GCXS._prune", "mask", True),
+    ("_umath.py", "_Elemwise._get_func_coords_data", "unmatched_mask", True),
+]
+
+
+def find_qualified(tree, qual):
+    parts = qual.split(".")
+    node = tree
+    for part in parts:
+        nxt = None
+        for n in ast.iter_child_nodes(node) if not isinstance(node, ast.Module) else node.body:
+            if isinstance(n, (ast.ClassDef, ast.FunctionDef)) and n.name == part:
+                nxt = n
+                break
+        if nxt is None:
+            return None
+        node = nxt
+    return node
+
+
+def is_not_equivalent(n):
+    """`~equivalent(a, b)` with exactly two positional arguments -> (a text, b text)"""
+    if isinstance(n, ast.UnaryOp) and isinstance(n.op, ast.Invert) and isinstance(n.value if hasattr(n, "value") else n.operand, ast.AST):
+        c = n.operand
+        if isinstance(c, ast.Call) and isinstance(c.func, ast.Name) and c.func.id == "equivalent" and len(c.args) == 2 \
+                and not c.keywords:
+            return ast.unparse(c.args[0]), ast.unparse(c.args[1])
+    return None
+
+
+def prune_sites(trees):
+    out = []
+    for rel, qual, var, exact in PRUNE_SITES:
+        if rel not in trees:
+            raise SiteError(f"pruning site: file {rel} missing")
+        fn = find_qualified(trees[rel][0], qual)
+        if fn is None:
+            raise SiteError(f"pruning site: {rel}:{qual} not found")
+        assigns = [n for n in ast.walk(fn) if isinstance(n, ast.Assign) and len(n.targets) == 1
+                   and isinstance(n.targets[0], ast.Name) and n.targets[0].id == var]
+        if not assigns:
+            raise SiteError(f"pruning site: {rel}:{qual} no longer assigns `{var}`")
+        rhs = assigns[0].value
+        txt = ast.unparse(rhs)
+        hit = is_not_equivalent(rhs)
+        if hit is None and not exact:
+            inner = [is_not_equivalent(n) for n in ast.walk(rhs)]
+            inner = [h for h in inner if h]
+            has_cmp = any(isinstance(n, ast.Compare) for n in ast.walk(rhs))
+            hit = inner[0] if len(inner) == 1 and not has_cmp else None
+        shape = f"(PNotEquivalent {coq_str(hit[0])} {coq_str(hit[1])})" if hit else f"(POther {coq_str(txt)})"
+        out.append((rel, qual, var, shape, txt))
+    return out
+
+
 def site_text(r):
     return " ; ".join(f"{f}={r['flags'][f][1]}" if r["flags"][f][1] else f"{f}=<default>" for f in FLAGS)
 
@@ -268,12 +328,18 @@ def generate(repo):
             f"    {coq_str(site_text(r))}")
     out.append(";\n".join(lines))
     out.append("].\n")
+    out.append("(* the expressions that decide which entries are pruned (dropped because they equal the fill value) *)\n"
+               "Definition prune_sites : list prune_site := [")
+    pr = prune_sites(trees)
+    out.append(";\n".join(f"  (* {rel}:{qual}  {var} = {txt} *)\n  mkPrune {coq_str(rel)} {coq_str(qual)} {coq_str(var)} {shape} {coq_str(txt)}"
+                          for rel, qual, var, shape, txt in pr))
+    out.append("].\n")
     text = "\n".join(out)
     promising = [r for r in sites if r["flags"]["sorted"][0] != "FFalse" and r["flags"]["sorted"][0] != "FDefault"
                  or r["flags"]["has_duplicates"][0] not in ("FTrue", "FDefault")]
     report = {
         "ctor_sites": {"status": "ok", "sites": len(sites), "files": len(trees),
-                       "flagged_coo_sites": len(promising),
+                       "flagged_coo_sites": len(promising), "prune_sites": len(pr),
                        "hash": hashlib.sha256(text.encode()).hexdigest()[:16]},
     }
     return {"S_ctor_sites.v": text}, report
